@@ -130,6 +130,8 @@ Definition enc_otrace (l : list (ost * Z * option pyexc)) : list Z :=
   concat (map (fun r => let st := fst (fst r) in
     [b2z (os_valid st); os_cbs st; snd (fst r); enc_exc (snd r)]
     ++ match os_hdr st with None => [-1; -1; -1] | Some (a, b, c) => [a; b; c] end ++ enc_dict (os_elems st)) l).
+Definition enc_ogeo (o : option lh_geo) : list Z := match o with None => [-1] | Some g => enc_img (geo_pack g) end.
+Definition enc_ocalib (o : option lh_calib) : list Z := match o with None => [-1] | Some c => enc_img (calib_pack c) end.
 Definition enc_geo (o : option lh_geo) : list Z :=
   match o with None => [-1] | Some g => 1 :: b2z (g_valid g) :: g_floats g end.
 Definition enc_calib (o : option lh_calib) : list Z :=
@@ -978,9 +980,9 @@ def py2yv(x):
         return '(YFloat %d)' % f64bits(x)
     if isinstance(x, str):
         return '(YStr %s%%string)' % coqrun.coq_string(x)
-    if isinstance(x, (list, tuple)):
+    if type(x) is list:
         return '(YList [%s])' % '; '.join(py2yv(v) for v in x)
-    if isinstance(x, dict):
+    if type(x) is dict:
         return '(YDict [%s])' % '; '.join('(%s, %s)' % (py2yv(k), py2yv(v)) for k, v in x.items())
     raise TypeError('not plain data: %r' % (x,))
 
@@ -997,12 +999,12 @@ def yv_enc(x):
         return [3, f64bits(x)]
     if isinstance(x, str):
         return [4, len(x)] + [ord(c) for c in x]
-    if isinstance(x, (list, tuple)):
+    if type(x) is list:
         out = [5, len(x)]
         for v in x:
             out += yv_enc(v)
         return out
-    if isinstance(x, dict):
+    if type(x) is dict:
         out = [6, len(x)]
         for k, v in x.items():
             out += yv_enc(k) + yv_enc(v)
@@ -1313,6 +1315,9 @@ def yaml_check(c):
             dumped = lhfile_impl_write(spec, fn)
             with open(fn) as f:
                 back = yaml.safe_load(f)
+            v = plain_domain_violation(dumped)
+            if v:
+                return {'class': 'yaml_data_outside_plain_domain', 'case': c, 'expected': 'plain data handed to yaml.dump', 'observed': v}
             if not plain_eq(back, dumped):
                 return {'class': 'yaml_roundtrip_hypothesis_fails', 'case': c, 'expected': repr(dumped)[:500], 'observed': repr(back)[:500],
                         'detail': 'yaml.safe_load(yaml.dump(x)) != x for a document the library wrote'}
@@ -2237,10 +2242,262 @@ def hist_oracle(ctx, deep):
     return n, fails
 
 
+
+# ---------------------------------------------------------------------------------------------- across the representations
+
+def plain_domain_violation(x, path='$'):
+    """None if x is inside the data domain of the YAML hypothesis (None/bool/int/str, non-NaN float, list, dict with
+    str/int keys, recursively; exact types), else a description of the first offending node"""
+    t = type(x)
+    if x is None or t in (bool, int, str):
+        return None
+    if t is float:
+        return None if x == x else '%s: NaN' % path
+    if t is list:
+        for k, v in enumerate(x):
+            r = plain_domain_violation(v, '%s[%d]' % (path, k))
+            if r:
+                return r
+        return None
+    if t is dict:
+        for k, v in x.items():
+            if type(k) not in (str, int):
+                return '%s: key %r of type %s' % (path, k, type(k).__name__)
+            r = plain_domain_violation(v, '%s[%r]' % (path, k))
+            if r:
+                return r
+        return None
+    return '%s: %s (%s)' % (path, t.__name__, repr(x)[:60])
+
+
+class _OneMem:
+    """what LighthouseMemHelper needs from a Crazyflie: cf.mem.get_mems(type) -> [the lighthouse memory]"""
+
+    def __init__(self, m):
+        self.mem = self
+        self._m = m
+
+    def get_mems(self, t):
+        return [self._m]
+
+
+def rnd_f32_number(rng):
+    while True:
+        b = rnd_f32(rng)
+        if not ((b >> 23) & 0xFF == 0xFF and (b & 0x7FFFFF)):
+            return b
+
+
+def lh_device(case):
+    mem = bytearray(0x2000)
+    for bs, (fl, valid) in case['geos'].items():
+        img = _fw_geo_layout(fl, valid)
+        mem[0x100 * int(bs):0x100 * int(bs) + len(img)] = img
+    for bs, (fl, uid, valid) in case['calibs'].items():
+        img = _fw_calib_layout(fl, uid, valid)
+        mem[0x1000 + 0x100 * int(bs):0x1000 + 0x100 * int(bs) + len(img)] = img
+    return mem
+
+
+def lh_pipeline(case, fn, spy=False):
+    """memory images -> LighthouseMemHelper.read_all_geos/calibs -> LighthouseConfigFileManager.write (a real file, the real
+    yaml unless spy) -> read -> LighthouseMemHelper.write_geos/write_calibs to an empty device.
+    Returns dict(dev2=bytes, st=..., keys=(geo ids, calib ids), dumped=..., loaded=...)"""
+    from cflib.crazyflie.mem.lighthouse_memory import LighthouseMemHelper
+    import cflib.localization.lighthouse_config_manager as mod
+    fake = MemFake(lh_device(case), grow=False)
+    helper = LighthouseMemHelper(_OneMem(_lh_mem(fake)))
+    got = {}
+    helper.read_all_geos(lambda d: got.__setitem__('geos', d))
+    fake.run()
+    helper.read_all_calibs(lambda d: got.__setitem__('calibs', d))
+    fake.run()
+    out = {'read_geos': sorted(got['geos'].keys()), 'read_calibs': sorted(got['calibs'].keys())}
+    spyobj = _YamlSpy() if spy else None
+    old = mod.yaml
+    if spy:
+        mod.yaml = spyobj
+    try:
+        mod.LighthouseConfigFileManager.write(fn, geos=got['geos'], calibs=got['calibs'], system_type=case['st'])
+        g2, c2, st2 = mod.LighthouseConfigFileManager.read(fn)
+    finally:
+        mod.yaml = old
+    if spy:
+        out['dumped'], out['loaded'] = spyobj.dumped[0], spyobj.loaded[0]
+    fake2 = MemFake(bytearray(0x2000), grow=False)
+    helper2 = LighthouseMemHelper(_OneMem(_lh_mem(fake2)))
+    done = []
+    helper2.write_geos(g2, lambda ok: done.append(ok))
+    fake2.run()
+    helper2.write_calibs(c2, lambda ok: done.append(ok))
+    fake2.run()
+    out.update({'dev2': bytes(fake2.mem), 'st': st2, 'keys': (sorted(g2.keys()), sorted(c2.keys())), 'done': done})
+    return out
+
+
+def lh_rnd_pipeline_case(rng):
+    ids = sorted(rng.sample(range(16), rng.choice([1, 2, 2, 3, 6, 16])))
+    geos, calibs = {}, {}
+    for k in ids:
+        if rng.random() < 0.85:
+            geos[str(k)] = [[rnd_f32_number(rng) for _ in range(12)], rng.random() < 0.75]
+        if rng.random() < 0.85:
+            calibs[str(k)] = [[rnd_f32_number(rng) for _ in range(14)], rng.choice([0, 0xFFFFFFFF, rng.getrandbits(32)]), rng.random() < 0.75]
+    return {'codec': 'cross', 'op': 'lh_mem_file_mem', 'geos': geos, 'calibs': calibs, 'st': rng.choice([1, 2])}
+
+
+def cross_check(c):
+    """the property text across the representations, on real files with the real PyYAML"""
+    tmp = _tmpdir()
+    try:
+        if c['op'] == 'lh_mem_file_mem':
+            fn = os.path.join(tmp, 'x_lh.yaml')
+            try:
+                r = lh_pipeline(c, fn)
+            except Exception as e:  # noqa
+                # which data did the library try to write?  (second run with the recorder, for the report only)
+                where = ''
+                try:
+                    lh_pipeline(c, fn, spy=True)
+                except Exception:  # noqa
+                    pass
+                return {'class': 'lh_memory_file_memory_fails', 'case': c, 'expected': 'the configuration read from memory can be written to a file and read back',
+                        'observed': '%s: %s' % (type(e).__name__, str(e)[:300]) + where,
+                        'detail': 'memory image -> read_all_geos/calibs -> LighthouseConfigFileManager.write -> read raised'}
+            dev1 = lh_device(c)
+            want_g = sorted(int(k) for k, v in c['geos'].items() if v[1])
+            want_c = sorted(int(k) for k, v in c['calibs'].items() if v[2])
+            bad = None
+            if r['keys'] != (want_g, want_c) or r['st'] != c['st'] or r['done'] != [True, True]:
+                bad = {'keys': r['keys'], 'st': r['st'], 'done': r['done']}
+            else:
+                for k in want_g:
+                    if r['dev2'][0x100 * k:0x100 * k + 49] != bytes(dev1[0x100 * k:0x100 * k + 49]):
+                        bad = {'geo': k, 'bytes': list(r['dev2'][0x100 * k:0x100 * k + 49])}
+                for k in want_c:
+                    a = 0x1000 + 0x100 * k
+                    if r['dev2'][a:a + 61] != bytes(dev1[a:a + 61]):
+                        bad = {'calib': k, 'bytes': list(r['dev2'][a:a + 61])}
+            if bad:
+                return {'class': 'lh_memory_file_memory_differs', 'case': c, 'expected': {'geos': want_g, 'calibs': want_c, 'st': c['st']},
+                        'observed': bad, 'detail': 'valid base stations must come back from the file with the same memory bytes'}
+            # the data domain of the YAML hypothesis
+            r2 = lh_pipeline(c, fn, spy=True)
+            v = plain_domain_violation(r2['dumped'])
+            if v:
+                return {'class': 'yaml_data_outside_plain_domain', 'case': c, 'expected': 'plain data handed to yaml.dump', 'observed': v}
+            return None
+        if c['op'] == 'param_layer_file':
+            return param_layer_check(c, tmp)
+    finally:
+        _cleanup_tmp()
+    return None
+
+
+def param_state_from_reply(pytype, payload, is_stored):
+    """the decoding of Param.persistent_get_state's reply handler (cflib/crazyflie/param.py), on the value bytes"""
+    from cflib.crazyflie.param import PersistentParamState
+    if not is_stored:
+        default_value, = struct.unpack(pytype, payload)
+        stored_value = None
+    else:
+        default_value, stored_value = struct.unpack('<%s' % (pytype[1:] * 2), payload)
+    return PersistentParamState(is_stored, default_value, stored_value if is_stored else None)
+
+
+def param_layer_check(c, tmp):
+    import yaml
+    import cflib.localization.param_io as mod
+    params = {}
+    for name, (pytype, payload, stored) in c['params'].items():
+        params[name] = param_state_from_reply(pytype, bytes(payload), stored)
+    fn = os.path.join(tmp, 'x_p.yaml')
+    try:
+        mod.ParamFileManager.write(fn, params=params)
+        back = mod.ParamFileManager.read(fn)
+    except Exception as e:  # noqa
+        return {'class': 'param_layer_file_fails', 'case': c, 'expected': 'file round trip', 'observed': '%s: %s' % (type(e).__name__, str(e)[:300])}
+    if set(back) != set(params) or any(not plain_eq(list(back[k]), list(params[k])) for k in params):
+        return {'class': 'param_layer_file_differs', 'case': c, 'expected': repr(params)[:500], 'observed': repr(back)[:500]}
+    with open(fn) as f:
+        v = plain_domain_violation(yaml.safe_load(f))
+    for st in params.values():
+        v = v or plain_domain_violation(list(st))
+    if v:
+        return {'class': 'yaml_data_outside_plain_domain', 'case': c, 'expected': 'plain data', 'observed': v}
+    return None
+
+
+def rnd_param_layer_case(rng):
+    from cflib.crazyflie.param import ParamTocElement
+    types = [t for (_, t) in ParamTocElement.types.values() if t]
+    params = {}
+    for k in range(rng.randrange(1, 6)):
+        pt = rng.choice(types)
+        size = struct.calcsize(pt)
+        stored = rng.random() < 0.6
+        while True:
+            payload = bytes(rng.getrandbits(8) for _ in range(size * (2 if stored else 1)))
+            vals = struct.unpack('<%s' % (pt[1:] * (2 if stored else 1)), payload)
+            if all(v == v for v in vals):              # no NaN
+                break
+        params['grp%d.par%d' % (k, rng.randrange(100))] = [pt, list(payload), stored]
+    return {'codec': 'cross', 'op': 'param_layer_file', 'params': params}
+
+
+def cross_tie(ctx, cases):
+    """model next to the code for the two conversions: memory image -> data handed to yaml.dump, and document loaded from
+    the file -> bytes written back to memory"""
+    rng = ctx.rng
+    tmp = _tmpdir()
+    fn = os.path.join(tmp, 't_lh.yaml')
+    n = ctx.scale(12, 150)
+    cnt = 0
+    for i in range(n):
+        c = lh_rnd_pipeline_case(rng)
+        r = lh_pipeline(c, fn, spy=True)
+        for bs, (fl, valid) in c['geos'].items():
+            k = int(bs)
+            img = _fw_geo_layout(fl, valid)
+            exp = yv_enc(r['dumped']['geos'][k]) if valid else [-7]
+            cases.add('x_geo_mem_to_file', 'match geo_unpack %s with Some g => if g_valid g then enc_yv (geo_file_object (geo_obj_of_mem widen32 g)) '
+                      'else [-7] | None => [-1] end' % ZL(img), exp, {'x_geo_mem_to_file': [k, fl, valid]}, nontrivial=valid)
+            if valid:
+                back = r['dev2'][0x100 * k:0x100 * k + 49]
+                cases.add('x_geo_file_to_mem', 'match geo_from_file_object %s with Some f => enc_ogeo (geo_mem_of_obj narrow32 f) | None => [-2] end'
+                          % py2yv(r['loaded']['geos'][k]), [1] + list(back), {'x_geo_file_to_mem': k})
+            cnt += 1
+        for bs, (fl, uid, valid) in c['calibs'].items():
+            k = int(bs)
+            img = _fw_calib_layout(fl, uid, valid)
+            exp = yv_enc(r['dumped']['calibs'][k]) if valid else [-7]
+            cases.add('x_calib_mem_to_file', 'match calib_unpack %s with Some c => if c_valid c then enc_yv (calib_file_object (calib_obj_of_mem widen32 c)) '
+                      'else [-7] | None => [-1] end' % ZL(img), exp, {'x_calib_mem_to_file': [k, fl, uid, valid]}, nontrivial=valid)
+            if valid:
+                a = 0x1000 + 0x100 * k
+                cases.add('x_calib_file_to_mem', 'match calib_from_file_object %s with Some f => enc_ocalib (calib_mem_of_obj narrow32 f) | None => [-2] end'
+                          % py2yv(r['loaded']['calibs'][k]), [1] + list(r['dev2'][a:a + 61]), {'x_calib_file_to_mem': k})
+            cnt += 1
+    _cleanup_tmp()
+    return {'pipelines': n, 'objects': cnt}
+
+
+def cross_oracle(ctx, deep):
+    rng = ctx.rng
+    fails, n = [], 0
+    for i in range(ctx.scale(40, 400) * (2 if deep else 1)):
+        c = lh_rnd_pipeline_case(rng) if i % 4 != 3 else rnd_param_layer_case(rng)
+        r = cross_check(c)
+        n += 1
+        if r:
+            fails.append(r)
+    return n, fails
+
+
 # ---------------------------------------------------------------------------------------------- module interface
 
-SECTIONS_TIE = [('crc', crc_tie), ('i2c', i2c_tie), ('ow', ow_tie), ('lh', lh_tie), ('yaml', yaml_tie), ('deck', deck_tie), ('loco', loco_tie), ('traj', traj_tie), ('timings', timings_tie), ('hist', hist_tie)]
-SECTIONS_ORACLE = [('i2c', i2c_oracle), ('ow', ow_oracle), ('lh', lh_oracle), ('yaml', yaml_oracle), ('deck', deck_oracle), ('loco', loco_oracle), ('misc', misc_oracle), ('hist', hist_oracle)]
+SECTIONS_TIE = [('crc', crc_tie), ('i2c', i2c_tie), ('ow', ow_tie), ('lh', lh_tie), ('yaml', yaml_tie), ('deck', deck_tie), ('loco', loco_tie), ('traj', traj_tie), ('timings', timings_tie), ('hist', hist_tie), ('cross', cross_tie)]
+SECTIONS_ORACLE = [('i2c', i2c_oracle), ('ow', ow_oracle), ('lh', lh_oracle), ('yaml', yaml_oracle), ('deck', deck_oracle), ('loco', loco_oracle), ('misc', misc_oracle), ('hist', hist_oracle), ('cross', cross_oracle)]
 
 
 def _corpus():
@@ -2358,5 +2615,6 @@ def replay(payload, ctx):
 
 lh_check, yaml_check, deck_check, loco_check, misc_check = map(_safe, (lh_check, yaml_check, deck_check, loco_check, misc_check))
 i2c_hist_check, ow_hist_check = _safe(i2c_hist_check), _safe(ow_hist_check)
+cross_check = _safe(cross_check)
 REPLAYERS = {'lh': lambda c, ctx: lh_check(c), 'yaml': lambda c, ctx: yaml_check(c), 'deck': lambda c, ctx: deck_check(c),
-             'loco': lambda c, ctx: loco_check(c), 'misc': lambda c, ctx: misc_check(c)}
+             'loco': lambda c, ctx: loco_check(c), 'misc': lambda c, ctx: misc_check(c), 'cross': lambda c, ctx: cross_check(c)}
